@@ -118,6 +118,14 @@ def spec_json(s: S, memo: dict[int, int] | None = None) -> Any:
 # ---------------------------------------------------------------------------
 # building
 # ---------------------------------------------------------------------------
+class _Factory:
+    def __repr__(self):
+        return "<per-instance default_factory value>"
+
+
+FACTORY = _Factory()
+
+
 def effective_props(U: Universe, s: S) -> dict[str, Any]:
     """All user property values of the node the spec describes (defaults filled
     in by evaluating the class spec's default source in the universe module)."""
@@ -125,6 +133,8 @@ def effective_props(U: Universe, s: S) -> dict[str, Any]:
     for f in U.prop_fields(s.cls):
         if f.name in s.props and f.init:
             out[f.name] = s.props[f.name]
+        elif f.factory is not None:
+            out[f.name] = FACTORY  # per-instance value, unknown to the spec
         else:
             out[f.name] = eval(f.default, U.module.__dict__) if f.default is not None else None
     return out
@@ -263,8 +273,10 @@ def origin_profile(U: Universe, s: S) -> tuple:
 def dump_node(U: Universe, node: Any, with_id: bool = True) -> Any:
     cn = type(node).__name__
     props = {f.name: tv(getattr(node, f.name)) for f in U.prop_fields(cn)}
+    if type(node) is not U.cls.get(cn):
+        cn = cn + "<not the universe's class object>"
     kids = []
-    for f in U.child_fields(cn):
+    for f in U.child_fields(type(node).__name__):
         v = getattr(node, f.name)
         if v is None:
             kids.append((f.name, None))
